@@ -723,6 +723,7 @@ Proof.
   injection H1 as <-. left.
   destruct s; cbn in E; try discriminate; cbn [node_keys].
   - exists k. split; [left; reflexivity | exact E].
+  - exists k. split; [left; reflexivity | exact E].
   - cbn in H0. destruct (is_tap c); [discriminate|]. destruct (check_pks_some _ _ _ _ E) as [k0 [Hin Hc]].
     apply in_map_iff in Hin. destruct Hin as [k1 [<- Hin]]. exists k1. auto.
   - cbn in H0. destruct (is_tap c); [discriminate|]. destruct (check_pks_some _ _ _ _ E) as [k0 [Hin Hc]].
